@@ -109,8 +109,8 @@ var detTable = map[string]tabEntry{
 		"the unsorted URL list is consumed only by routeSelectionSet, which writes result[loc] keyed by the element (callers frozen by R4a-style check below)"},
 	"merger.(TypeURLMap).SetFromSchema/range param map[string]*github.com/vektah/gqlparser/v2/ast.Definition": {1,
 		"K: Set(k, field, url) and SetTypeIsImplementsNode(k) write the entry of the loop key; field order inside comes from a slice"},
-	"merger.mergeCustomObjectFields/range map[int]bool": {2,
-		"first loop: boolean or/and accumulation (commutative); second loop only builds the list of names inside an error message"},
+	"merger.mergeCustomObjectFields/range map[int]bool": {1,
+		"builds the list of names inside an error message only (the other loop over this map, a boolean or/and accumulation, is classified by the rule itself now)"},
 	"merger.mergeTypes/range param map[string]*github.com/vektah/gqlparser/v2/ast.Definition": {1,
 		"each iteration reads a[k], b[k] and writes result[k] for its own key; an early return only selects which of several conflicts is reported — acceptance (no conflict at any key) does not depend on order"},
 	"pebbles.(subscriptionDict).CleanAll/range param pebbles.subscriptionDict": {1,
